@@ -104,7 +104,7 @@ class C10Remove(Harness):
                 return
             idx.append(j[0])
         env.prove("survivors keep their order", idx == sorted(idx) and len(set(idx)) == len(idx))
-        d2 = {(i, j): dist_sq(env, P[i], P[j], periods) for i in range(n) for j in range(n) if i != j}
+        d2 = {(i, j): dist_sq(env, P[i], P[j], periods, kmax=3 if cfg['wide'] else 1) for i in range(n) for j in range(n) if i != j}
         for i, j in itertools.combinations(idx, 2):
             env.prove(f"surviving pair separated [{i},{j}]",
                       env.Not(surf_lt(env, d2[(i, j)], R[i] + R[j], m)))
@@ -163,7 +163,7 @@ class C10Dist(Harness):
         R = [env.real(f"r{k}", 0, 4) for k in range(n)]
         drops = [env.D.SphericalDroplet(P[k], R[k]) for k in range(n)]
         em = env.E.Emulsion(drops)
-        d2 = {(i, j): dist_sq(env, P[i], P[j], periods) for i in range(n) for j in range(n) if i != j}
+        d2 = {(i, j): dist_sq(env, P[i], P[j], periods, kmax=3 if cfg['wide'] else 1) for i in range(n) for j in range(n) if i != j}
         kw = {} if grid is None else dict(grid=grid)
         Dc = em.get_pairwise_distances(**kw)
         Ds = em.get_pairwise_distances(subtract_radius=True, **kw)
